@@ -39,23 +39,24 @@ func unsupported(format string, args ...any) {
 
 // State shared between all interpreted goroutines of one path.
 type interpreter struct {
-	prog     *ssa.Program
-	L        *Loaded
-	W        *worker
-	globals  map[*ssa.Global]*value
-	initDone map[*ssa.Package]bool
-	sizes    types.Sizes
-	tc       *TermCtx
-	p        *pathCtx
-	S        *sched
-	steps    int64
-	maxSteps int64
-	side     map[any]any // side tables for native models keyed by object address
-	hashMemo map[string][]value
-	hashIns  []string
-	trace    bool
-	dead     bool
-	curG     *goroutine
+	prog      *ssa.Program
+	L         *Loaded
+	W         *worker
+	globals   map[*ssa.Global]*value
+	initDone  map[*ssa.Package]bool
+	sizes     types.Sizes
+	tc        *TermCtx
+	p         *pathCtx
+	S         *sched
+	steps     int64
+	maxSteps  int64
+	spinLimit int64       // vfMustFinishWithin: instruction count at which the path is declared non-terminating
+	side      map[any]any // side tables for native models keyed by object address
+	hashMemo  map[string][]value
+	hashIns   []string
+	trace     bool
+	dead      bool
+	curG      *goroutine
 
 	runtimeErrorT types.Type
 }
@@ -716,6 +717,11 @@ func runFrame(fr *frame) {
 			}
 			i.steps++
 			fr.cur = instr
+			if i.spinLimit > 0 && i.steps > i.spinLimit {
+				i.spinLimit = 0
+				i.p.spin(fr)
+				panic(abortPath{})
+			}
 			if i.steps > i.maxSteps {
 				i.p.inconclusive("step bound %d exceeded in %s", i.maxSteps, fr.fn)
 				panic(abortPath{})
